@@ -14,6 +14,15 @@ NewSourceSplitter, at every fake node's Deploy handler and inside the harness-ow
 is model-free: the job checkpoint ids of the operator checkpoints in every recorded DeployOperatorRequest and of the
 SourceCheckpoint (id and split positions) handed to the splitter.
 
+Late acknowledgements (family "late", C12 / C13): todo[s] of Restart.tla = the acknowledgement member s of the assembly that
+took the pending checkpoint still owes (possibly under way, also from the member that was lost); it is delivered at every
+point of the following start() and after it.  NoOldAssemblyPublication: a checkpoint completes only while its own assembly is
+the job's assembly.  The replayer delivers the held acknowledgements of the fake nodes at the model's Ack steps and judges
+model-free: the LAST acknowledgement of a checkpoint of assembly k accepted after start k+1 has read its recovery checkpoint
+(then it lets the write go and reports the store's current checkpoint and the retention announcements the new assembly got).
+
+  C12  "published only after every operator and every source runner of the CURRENT assembly has acknowledged ...; late ...
+       acknowledgements never complete or corrupt it"
   C13  "whenever the job (re)starts it recovers from THE completed checkpoint with the highest id"
        -> two cuts in one start, or a cut that was never the newest completed checkpoint during the start
   C16  "after recovery every split is resumed from its checkpointed position" (the checkpoint the job recovered from)
@@ -103,8 +112,9 @@ def late_witnesses(k, num, seed):
 
 
 # every wait of the replayer is bounded, and so is the whole call: a chunk of 60 behaviours takes < 1 s on a healthy tree; a
-# child is killed after 40 s, after 3 violations or 150 s the remaining behaviours are skipped
-BOUNDS = dict(Chunk=60, ChildTimeoutS=40, StopAfterViolations=3, BudgetS=150)
+# child is killed after 25 s, after 3 violations or 150 s the remaining behaviours are skipped (a job that hangs ends the
+# arm after ~100 s with "child timed out" violations; measured with a store call that never returns)
+BOUNDS = dict(Chunk=60, ChildTimeoutS=25, StopAfterViolations=3, BudgetS=150)
 
 
 def _replay(c, prop, k, behs, what):
